@@ -10,12 +10,11 @@ the six keys t / from / offline / type / id / notify: an attribute that was abse
 (offline: as "0").  The scenarios therefore require the documented attributes to be present.
 
 NOT in this file (see the report of the assignment c09b):
- * GroupsNotificationProtocolEntity, SubjectGroupsNotificationProtocolEntity - engine: `super(C, C).fromProtocolTreeNode(node)` (a class as
-   second argument of super) ends in a Python traceback (interp.super_attr: 'VClass' object has no attribute 'loc').
- * RemoveGroupsNotificationProtocolEntity - finding: the documented attribute mode="none" is neither read nor written (lost).
  * CreateGroupsNotificationProtocolEntity - finding: <group s_t=> comes back as an int, not a string; (engine: path limit exceeded as well).
- * OfflineIbProtocolEntity - finding: the documented attribute from="s.whatsapp.net" of <ib> is lost.
- * AccountIbProtocolEntity - finding: fromProtocolTreeNode has no return statement (returns None); creation / expiration would be ints."""
+Still to be read with care:
+ * AccountIbProtocolEntity writes creation / expiration as ints (int(self.creation)), not as strings: account_ib_roundtrip claims them by value.
+History: Groups / SubjectGroups were out of reach until the engine supported `super(C, C).m(...)`; RemoveGroups (mode lost), OfflineIb (from lost)
+and AccountIb (fromProtocolTreeNode returned None) were findings of the first pass, fixed in /repo since (300b729, 13c1ec8), now under scenarios."""
 from pyvc.lang import *
 from contracts.C09_entities import *
 
